@@ -149,7 +149,7 @@ pub fn merge_exhaustive(thorough: bool, shard: u64, nshards: u64) -> WorkerResul
 }
 
 pub fn diff_exhaustive(thorough: bool, shard: u64, nshards: u64) -> WorkerResult {
-    let (k, l) = if thorough { (4, 6) } else { (4, 5) };
+    let (k, l) = if thorough { (4, 7) } else { (4, 6) };
     let seqs = all_seqs(k, l);
     let vs: Vec<Vec<Value>> = seqs.iter().map(|s| vals(s)).collect();
     let mut r = WorkerResult { part: "diff-exhaustive".into(), exhaustive: true, ..Default::default() };
